@@ -150,8 +150,17 @@ Definition of_b64 (x : b64) : fl :=
     binary_normalize prec emax Hp Hpe mode_NE (if s then Zneg m else Zpos m) e s
   end.
 
+Definition fmaxfloat : fl := @Bmax_float prec emax Hp Hpe.
+Definition nan_to_num (x : fl) : fl :=
+  match x with
+  | B754_nan => B754_zero false
+  | B754_infinity s => if s then Bopp fmaxfloat else fmaxfloat
+  | _ => x
+  end.
+
 Global Instance NumFl : Num fl := {
   n_of_b64 := of_b64;
+  n_nan_to_num := nan_to_num;
   n_of_Z := fof_Z prec emax Hp Hpe;
   n_add := Bplus mode_NE;
   n_sub := Bminus mode_NE;
